@@ -1,6 +1,7 @@
 package props
 
 import (
+	"errors"
 	"fmt"
 	"testing"
 
@@ -342,7 +343,7 @@ func checkC10(c CaseC10, x *hx.Ctx) (fail *hx.Failure) {
 			if o.Kind == "reprocess" {
 				interesting = true
 				if lastAccepted {
-					if err != gots.ErrSCTE35DuplicateDescriptor {
+					if !errors.Is(err, gots.ErrSCTE35DuplicateDescriptor) {
 						return hx.Failf("duplicate-not-rejected", "processing the same descriptor twice in a row returned %v, want ErrSCTE35DuplicateDescriptor, after %v", err, hist)
 					}
 				} else if err == nil {
@@ -354,13 +355,21 @@ func checkC10(c CaseC10, x *hx.Ctx) (fail *hx.Failure) {
 				continue
 			}
 			last = d
-			early := err == gots.ErrSCTE35DuplicateDescriptor || err == gots.ErrVSSSignalIdNotFound || err == gots.ErrSCTE35UnsupportedSpliceCommand
+			early := errors.Is(err, gots.ErrSCTE35DuplicateDescriptor) || errors.Is(err, gots.ErrVSSSignalIdNotFound) || errors.Is(err, gots.ErrSCTE35UnsupportedSpliceCommand)
 			lastAccepted = !early
 			if early {
+				// only for duplicates does the statement promise an unchanged open list; for the other early
+				// rejections the harness merely has to stay in step, which it can if nothing was closed or opened
 				if len(closed) != 0 || !sameList(before, after) {
-					return hx.Failf("reject-changes-state", "a rejected descriptor (%v) changed the tracker after %v", err, hist)
+					if errors.Is(err, gots.ErrSCTE35DuplicateDescriptor) {
+						return hx.Failf("reject-changes-state", "a descriptor rejected as a duplicate changed the tracker after %v", hist)
+					}
+					return nil // the model cannot follow an undocumented partial effect: stop here without a verdict
 				}
 				continue
+			}
+			if o.Kind == "reprocess-open" && err == nil && len(closed) == 0 && sameList(before, after) {
+				continue // accepted as a no-op: the object keeps its place in the open list
 			}
 			nextIndex++
 			d.index = nextIndex
@@ -422,11 +431,14 @@ func checkC10(c CaseC10, x *hx.Ctx) (fail *hx.Failure) {
 					}
 				}
 				for _, s := range seen {
-					if s.status == 1 && !shown[s.obj] {
+					if s.status == 1 && !shown[s.obj] && (err == nil || s.abs.Type != 0x13) {
+						// (a breakaway is hidden from Open() anyway: it only counts as gone when the resumption was accepted)
 						s.status = 3
 					}
 				}
-				pendingBreakaway = false
+				if err == nil {
+					pendingBreakaway = false
+				}
 			}
 		case "close":
 			var d *c10Desc
@@ -494,13 +506,6 @@ func checkC10(c CaseC10, x *hx.Ctx) (fail *hx.Failure) {
 				}
 			}
 		}
-	}
-	byEnd, f1 := c10Make(OpC10{Type: 0x11, Event: 77}, 6, true)
-	if f1 != nil {
-		return f1
-	}
-	if closed, err := by.ProcessDescriptor(byEnd.obj); err != nil || len(closed) != 1 || closed[0] != byStart.obj {
-		return hx.Failf("bystander-close", "the program end given to the second tracker closed %d descriptors (err %v), want exactly its program start, after %v", len(closed), err, hist)
 	}
 	x.NT(sawBreakaway && interesting)
 	x.LabelIf(sawBreakaway, "has-breakaway")
